@@ -11,6 +11,6 @@ if os.path.exists(os.path.join(src, "notes.md")):
 if os.path.exists(os.path.join(d, "demo")):
     shutil.rmtree(os.path.join(d, "demo"))
 shutil.copytree(os.path.join(src, "demo"), os.path.join(d, "demo"), ignore=shutil.ignore_patterns("_build*", "build*", "*.o", "gen*", "out*", "a.out"))
-meta = dict(id=sid, property=prop, round=int(rnd), source="independent sub-agent (given the property text, one-line descriptions of the earlier changes to avoid, a list of untouched areas, and a scratch worktree)", change=change, needs_to_manifest=needs)
+meta = dict(id=sid, property=prop, round=int(rnd), source=("independent sub-agent (given only the property text and a scratch worktree)" if int(rnd) >= 10 else "independent sub-agent (given the property text, one-line descriptions of the earlier changes to avoid, a list of untouched areas, and a scratch worktree)"), change=change, needs_to_manifest=needs)
 json.dump(meta, open(os.path.join(d, "meta.json"), "w"), indent=1)
 print("staged", d)
